@@ -353,6 +353,7 @@ func (s *Store) Prewrite(muts []*kvrpcpb.Mutation, o PrewriteOpts) PrewriteResul
 	}
 	var pending []pend
 	var maxMin uint64
+	ownPlain := false
 	for i, m := range muts {
 		k := s.peek(m.Key)
 		action := kvrpcpb.PrewriteRequest_SKIP_PESSIMISTIC_CHECK
@@ -383,6 +384,13 @@ func (s *Store) Prewrite(muts []*kvrpcpb.Mutation, o PrewriteOpts) PrewriteResul
 				if m.Op != kvrpcpb.Op_CheckNotExists {
 					if l.MinCommitTS > maxMin {
 						maxMin = l.MinCommitTS
+					}
+					if (o.Async || o.TryOnePC) && !l.Async {
+						// TiKV (check_lock): a duplicate over an own lock that is not an async-commit lock reports
+						// min_commit_ts 0, which makes the whole request fall back to 2PC - the lock was written by an
+						// attempt that had fallen back (or this is a 1PC retry: 1PC leaves no lock behind, so the first
+						// attempt cannot have committed that way)
+						ownPlain = true
 					}
 				}
 				continue
@@ -460,7 +468,7 @@ func (s *Store) Prewrite(muts []*kvrpcpb.Mutation, o PrewriteOpts) PrewriteResul
 	if len(res.Errs) > 0 {
 		return res
 	}
-	fallback := (o.Async || o.TryOnePC) && (o.ForceFallback || (o.MaxCommitTS != 0 && maxMin > o.MaxCommitTS))
+	fallback := (o.Async || o.TryOnePC) && (o.ForceFallback || ownPlain || (o.MaxCommitTS != 0 && maxMin > o.MaxCommitTS))
 	if o.TryOnePC && !fallback {
 		for _, p := range pending {
 			k := s.ks(p.key)
